@@ -1,5 +1,6 @@
 import Poupool.Properties.C07
 import Poupool.Model.Cover
+import Poupool.Model.Guards
 import Poupool.Properties.C06
 /-!
 # C12  Mode requests honour their preconditions; cover and pumps are sequenced
@@ -85,5 +86,21 @@ open Poupool.Cover in
 /-- the published decade is a multiple of ten between 0 and 100 for every position the firmware can report -/
 theorem decade_range (p : Int) (h0 : 0 ≤ p) (h1 : p ≤ 100) : 0 ≤ decade p ∧ decade p ≤ 100 ∧ decade p % 10 = 0 := by
   unfold decade; omega
+
+/-! ## what the guards mean (Model/Guards.lean, exhaustively compared with the real guard methods) -/
+open Poupool.Guards in
+/-- a request guarded by `unless tank_is_low` is honoured only if the tank is neither halted, filling nor low -/
+theorem tank_guard_meaning (tank : String) : tankIsLow tank = false → tank ≠ "halt" ∧ tank ≠ "fill" ∧ tank ≠ "low" := by
+  intro h
+  simp only [tankIsLow, Bool.or_eq_false_iff, beq_eq_false_iff_ne, ne_eq] at h
+  exact ⟨h.1.1, h.2, h.1.2⟩
+
+open Poupool.Guards in
+theorem high_guard_meaning (tank : String) : tankIsHigh tank = true → tank = "high" := by
+  intro h; simpa [tankIsHigh] using h
+
+open Poupool.Guards in
+theorem standby_guard_meaning (n : Int) : pumpStoppedInStandby n = false → n ≠ 0 := by
+  intro h; simpa [pumpStoppedInStandby] using h
 
 end Poupool.C12
